@@ -31,7 +31,7 @@ CLAIM = {
             "is fixed once set: ChannelSetup.funding_outpoint is written, outside construction, only by "
             "MultiSigner::additional_setup and only while the stored outpoint is still null. (R7.7) `no HTLC pending` is read from the recorded commitment "
             "contents, which are the whole supplied content: nothing drops an HTLC between the request and the recorded "
-            "CommitmentInfo2 (same obligations as the first part of C04 R4.3). channel_closed + persist: C02 R2.2. Does "
+            "CommitmentInfo2 (same obligations as the first part of C04 R4.3). (R7.8) refusals are real refusals under every filter configuration: PolicyFilter::filter lets the first matching rule decide with that rule's own action and defaults to Error, and a policy error becomes Ok only when the filter says Warn (same obligations as C05 R5.4). channel_closed + persist: C02 R2.2. Does "
             "not decide the numeric epsilon/fee arithmetic at extremes.",
     "note": "non-permissive policy; Wallet::can_spend / allowlist_contains semantics by name (C08 R8.4 checks can_spend)",
     "technique": "static analysis: must-pass-through on boolean/Result edges + guard scenarios + provenance (argument roles)",
@@ -48,6 +48,7 @@ def run(ctx):
     r75(ctx)
     r76(ctx)
     r_content(ctx)
+    r_filter(ctx)
 
 
 def r71(ctx):
@@ -400,3 +401,11 @@ def r_content(ctx):
                      "builders forward balances, both HTLC lists and the feerate unmodified and CommitmentInfo2::new only sorts "
                      "(same obligations as the first part of C04 R4.3)")
     _c04.content_passthrough(ctx, rid="R7.7")
+
+
+def r_filter(ctx):
+    """every guard of this property refuses through policy_err!; which tags are demoted to warnings is decided by
+    PolicyFilter::filter.  Same obligations as C05 R5.4 (first matching rule decides with its own action, default Error,
+    Err unless Warn), evaluated here because an operator's `error` pin on this property's tags depends on them."""
+    from rules import C05 as _c05
+    _c05.r54(ctx, rid="R7.8")
